@@ -25,7 +25,7 @@ ASSUMPTIONS = [
     "calibration variant: the same seeded calibration is run under two different schedules / worker counts (island creation jobs, candidate evaluations and adopted pygmo threads under the scheduler); champions and best individuals must be bit-identical (unconnected topology only)",
 ]
 COMPONENTS = {"real": ["pyxel", "dask.local.get_async", "xarray", "numpy"], "stub": ["thread pool (SimPool)", "process pool semantics", "queue wait"]}
-BUDGET = {"quick": {"n": 96, "wall": 100, "determinism": 4}, "thorough": {"n": 8000, "wall": 1500, "determinism": 12}}
+BUDGET = {"quick": {"n": 96, "wall": 100, "determinism": 4}, "thorough": {"n": 16000, "wall": 1500, "determinism": 12}}
 REQUIRED_REACH = ["readout_times_swept", "variant:calibration", "island_creation_order_varied", "contested_runs", "preempted_runs", "procs_runs", "seed_lock_contended", "reordered_completion"]
 
 
